@@ -6,6 +6,7 @@ From Verif Require Tie.Pin_TestIdRegex_src Tie.Pin_TestTitleRegex_src Tie.Pin_Ru
   Tie.Pin_lits_util_renumber_tests_TestRenumberer_processYaml
   Tie.Pin_lits_util_renumber_tests_TestRenumberer_formatEndOfFile
   Tie.Pin_lits_util_renumber_tests_TestRenumberer_processFile Tie.Pin_max_scan_token_size Tie.Pin_scan_limit_renumber_process_yaml.
+From Verif Require Model.RuleId Model.Update Model.Cli Proofs.CliProofs Proofs.CliCheckProofs.
 Open Scope N_scope.
 
 (* the running index is max(test_id lines seen, test_title lines seen), in every reachable state *)
@@ -117,3 +118,10 @@ Theorem C13_spec_example :
   = [$"- test_title: 942100-1"; $"  test_id: 1"; $"  desc: x"; $"- test_id: 2"; $"- test_title: 942100-2"; $"  test_id: 3"] /\
   balanced 0 0 [$"- test_title: a"; $"  test_id: 7"; $"  desc: x"; $"- test_id: 9"; $"- test_title: 942100-5"; $"  test_id: 1"].
 Proof. exact spec_example. Qed.
+
+(* --check, whole command on the tree model: `renumber-tests --all --check` succeeds exactly when
+   `renumber-tests --all` would leave every file byte-identical *)
+Theorem C13_check_fails_exactly_when_a_rewrite_would_change_a_file : forall renum files t, NoDup files ->
+  (Cli.renumber_check_all renum files t = Cli.Success <-> Cli.renumber_all renum files t = t).
+Proof. exact CliCheckProofs.renumber_check_agrees_with_renumber. Qed.
+Print Assumptions C13_check_fails_exactly_when_a_rewrite_would_change_a_file.
